@@ -13,6 +13,7 @@ import (
 	"strings"
 	"unsafe"
 
+	"github.com/cronokirby/saferith"
 	"github.com/fxamacker/cbor/v2"
 	"fmt"
 	"math/big"
@@ -622,4 +623,12 @@ func CborFor(dst interface{}, name string) []byte {
 		panic(err)
 	}
 	return b
+}
+
+func SymNat(name string, bits int) *saferith.Nat {
+	return new(saferith.Nat).SetBig(new(big.Int).Abs(val(uniq(name))), bits)
+}
+
+func SymInt(name string, bits int) *saferith.Int {
+	return new(saferith.Int).SetBig(val(uniq(name)), bits)
 }
